@@ -52,6 +52,13 @@ type c13Case struct {
 	Skipper int  `json:"skipper,omitempty"`
 	Skip    bool `json:"skip,omitempty"`
 
+	// round 5: further BasicAuth / KeyAuth instances on the path of the same request, inside the one this case
+	// describes (which is installed with e.Use).  Of a stack entry only the configuration counts (Mode 0 / 1,
+	// validator table, Realm / Lookup / Scheme / EH / Cont / Ctor / Skipper) and At: 0 = e.Use, 1 = the route's
+	// group, 2 = the route.  All instances see the one request of the outer case.
+	Stack []*c13Case `json:"stack,omitempty"`
+	At    int        `json:"at,omitempty"`
+
 	// mode 2: the requests (Sub[0] also carries the configuration and the validator table) and, per request,
 	// the index of the validator call inside which it waits until the next request has been served (-1: never)
 	Sub     []*c13Case `json:"sub,omitempty"`
@@ -155,6 +162,9 @@ type c13Call struct{ u, p string }
 
 func c13Run(ci any) Result {
 	c := ci.(*c13Case)
+	if len(c.Stack) > 0 && (c.Mode == 0 || c.Mode == 1) {
+		return c13RunStack(c)
+	}
 	switch c.Mode {
 	case 0:
 		return c13RunBasic(c13Norm(c))
@@ -437,12 +447,24 @@ func c13BoundaryParam(b string) string {
 	return b
 }
 
+func (c *c13Case) grouped() bool {
+	for _, l := range c.Stack {
+		if l.At >= 1 {
+			return true
+		}
+	}
+	return false
+}
+
 func c13Request(c *c13Case) *http.Request {
 	target := "/"
 	if len(c.Params) == 2 {
 		target = "/p/" + c.Params[0] + "/" + c.Params[1]
 	} else if len(c.Params) == 22 {
 		target = "/m/" + strings.Join(c.Params, "/")
+	}
+	if c.grouped() {
+		target = "/g" + target
 	}
 	hasBody := len(c.Form) > 0 || len(c.RawBody) > 0
 	method := c.Method
@@ -497,6 +519,9 @@ func c13Request(c *c13Case) *http.Request {
 		for _, v := range h.Values {
 			req.Header[k] = append(req.Header[k], string(v))
 		}
+	}
+	for _, a := range c.Auth {
+		req.Header["Authorization"] = append(req.Header["Authorization"], string(a))
 	}
 	for _, ck := range c.Cookie {
 		req.Header["Cookie"] = append(req.Header["Cookie"], ck)
@@ -773,6 +798,383 @@ func c13RunKey(c *c13Case) (res Result) {
 	}
 	res.Nontrivial = len(calls) > 0
 	return res
+}
+
+// ---------- several instances on one request ----------
+
+// all instances on the request's path, outermost first: the case's own one (e.Use), then the stack by level.  Every
+// layer is returned as a view that carries ITS configuration and THE request of the outer case.
+func c13Layers(c *c13Case) []*c13Case {
+	top := c13Norm(c)
+	top.Stack, top.At = c.Stack, -1
+	out := []*c13Case{top}
+	for at := 0; at <= 2; at++ {
+		for _, l := range c.Stack {
+			k := l.At
+			if k < 0 || k > 2 {
+				k = 2
+			}
+			if k != at || (l.Mode != 0 && l.Mode != 1) {
+				continue
+			}
+			v := *top // the request
+			v.Mode, v.Ctor, v.Skipper, v.At = l.Mode, l.Ctor, l.Skipper, k
+			v.Default, v.Table, v.ErrValid = l.Default, l.Table, l.ErrValid
+			v.Realm, v.Lookup, v.Scheme, v.EH, v.Cont = l.Realm, l.Lookup, l.Scheme, l.EH, l.Cont
+			if v.Ctor >= 2 {
+				v.Ctor = 0
+			}
+			n := c13Norm(&v)
+			n.Stack = c.Stack
+			out = append(out, n)
+		}
+	}
+	return out
+}
+
+func c13RunStack(c *c13Case) (res Result) {
+	layers := c13Layers(c)
+	n := len(layers)
+	probeReq := c13Request(layers[0])
+	authValues := probeReq.Header.Values("Authorization")
+	bcalls := make([][]c13Call, n)
+	kcalls := make([][]string, n)
+	ehClass := make([]int, n)
+	reached := make([]bool, n+1)
+	ran := false
+	srcsOf := make([][]c13Src, n)
+	locOf := make([][][]c13Pair, n)
+
+	ops := []string{"3", wInt(n)}
+	cfgOK := true
+	for i, l := range layers {
+		if l.Mode == 0 {
+			ops = append(ops, "0", wInt(l.Ctor), wBool(l.skipped()), wStr(l.Realm), wStr(strconv.Quote(l.Realm)), wInt(len(authValues)))
+			for _, a := range authValues {
+				ops = append(ops, wStr(a))
+			}
+			ops = append(ops, c13Table(l, true))
+			continue
+		}
+		srcs, ok := c13Sources(l)
+		if !ok {
+			cfgOK = false
+		}
+		srcsOf[i] = srcs
+		locOf[i] = make([][]c13Pair, len(srcs))
+		ops = append(ops, "1", wInt(l.Ctor), wBool(l.skipped()), wStr(l.Lookup), wStr(l.Scheme), wInt(l.EH), wBool(l.Cont), wInt(len(srcs)))
+		for k, sc := range srcs {
+			locOf[i][k] = c13Located(layers[0], sc)
+			ops = append(ops, wInt(len(locOf[i][k])))
+			for _, p := range locOf[i][k] {
+				ops = append(ops, wStr(p.name), wStr(p.value))
+			}
+		}
+		ops = append(ops, c13Table(l, false))
+	}
+	res.Ops = strings.Join(ops, " ")
+
+	e := echo.New()
+	var useMW, groupMW, routeMW []echo.MiddlewareFunc
+	cfgPanic := func() (p bool) {
+		defer func() {
+			if r := recover(); r != nil {
+				p = true
+			}
+		}()
+		for i, l := range layers {
+			i, l := i, l
+			var mw echo.MiddlewareFunc
+			if l.Mode == 0 {
+				v := func(u, p string, _ echo.Context) (bool, error) {
+					bcalls[i] = append(bcalls[i], c13Call{u, p})
+					return c13Outcome(l.lookup([]byte(u), []byte(p)), l.ErrValid)
+				}
+				if l.Ctor == 1 {
+					mw = middleware.BasicAuth(v)
+				} else {
+					mw = middleware.BasicAuthWithConfig(middleware.BasicAuthConfig{Skipper: c13Skipper(l), Realm: l.Realm, Validator: v})
+				}
+			} else {
+				v := func(key string, _ echo.Context) (bool, error) {
+					kcalls[i] = append(kcalls[i], key)
+					return c13Outcome(l.lookup([]byte(key), nil), l.ErrValid)
+				}
+				if l.Ctor == 1 {
+					mw = middleware.KeyAuth(v)
+				} else {
+					cfg := middleware.KeyAuthConfig{Skipper: c13Skipper(l), KeyLookup: l.Lookup, AuthScheme: l.Scheme,
+						ContinueOnIgnoredError: l.Cont, Validator: v}
+					if l.EH != 0 {
+						cfg.ErrorHandler = func(err error, _ echo.Context) error {
+							var miss *middleware.ErrKeyAuthMissing
+							var he *echo.HTTPError
+							switch {
+							case errors.As(err, &miss):
+								ehClass[i] = 1
+							case errors.Is(err, errC13Validator), errors.As(err, &he):
+								ehClass[i] = 3
+							default:
+								ehClass[i] = 2
+							}
+							switch l.EH {
+							case 1:
+								return nil
+							case 2:
+								return err
+							}
+							return echo.NewHTTPError(l.EH)
+						}
+					}
+					mw = middleware.KeyAuthWithConfig(cfg)
+				}
+			}
+			// behind every instance: did it pass the request on?
+			after := func(next echo.HandlerFunc) echo.HandlerFunc {
+				return func(ctx echo.Context) error {
+					reached[i+1] = true
+					return next(ctx)
+				}
+			}
+			switch {
+			case l.At <= 0:
+				useMW = append(useMW, mw, after)
+			case l.At == 1:
+				groupMW = append(groupMW, mw, after)
+			default:
+				routeMW = append(routeMW, mw, after)
+			}
+		}
+		return false
+	}()
+	res.Tags = []string{fmt.Sprintf("stack:%d-instances", n)}
+	if cfgPanic || !cfgOK {
+		res.Obs = "config-panic"
+		if cfgPanic != !cfgOK {
+			res.Obs = fmt.Sprintf("config-panic=%v but lookups well-formed=%v", cfgPanic, cfgOK)
+		}
+		res.Tags = append(res.Tags, "stack:config-panic")
+		return res
+	}
+	e.Use(useMW...)
+	h := func(ctx echo.Context) error {
+		ran = true
+		return ctx.NoContent(http.StatusOK)
+	}
+	g := e.Group("")
+	if layers[0].grouped() {
+		g = e.Group("/g", groupMW...)
+	}
+	g.Any("/", h, routeMW...)
+	g.Any("/p/:key/:other", h, routeMW...)
+	g.Any(c13ManyRoute(), h, routeMW...)
+	rec := httptest.NewRecorder()
+	reached[0] = true
+	panicked := func() (p bool) {
+		defer func() {
+			if r := recover(); r != nil {
+				p = true
+				res.Oracle = fmt.Sprintf("auth middleware panicked: %v", r)
+			}
+		}()
+		e.ServeHTTP(rec, c13Request(layers[0]))
+		return false
+	}()
+	if panicked {
+		res.Obs = "panic"
+		noSource := false
+		for i, l := range layers {
+			if l.Mode == 1 && len(srcsOf[i]) == 0 {
+				noSource = true // configuration-only panic (C13_key_panic_iff), compared with the model
+			}
+		}
+		if noSource {
+			res.Oracle = ""
+			res.Tags = append(res.Tags, "key:no-known-source-panic")
+		}
+		return res
+	}
+	obs := []string{wBool(ran), wInt(rec.Code), wInt(n)}
+	for i, l := range layers {
+		obs = append(obs, wInt(ehClass[i]))
+		if l.Mode == 0 {
+			obs = append(obs, wInt(len(bcalls[i])))
+			for _, cl := range bcalls[i] {
+				obs = append(obs, wStr(cl.u), wStr(cl.p))
+			}
+		} else {
+			obs = append(obs, wInt(len(kcalls[i])))
+			for _, k := range kcalls[i] {
+				obs = append(obs, wStr(k), wStr(""))
+			}
+		}
+	}
+	obs = append(obs, wStr(rec.Header().Get("WWW-Authenticate")))
+	res.Obs = strings.Join(obs, " ")
+
+	// ---- model-free oracle, instance by instance: each one is judged on the request AS SENT and on whether IT
+	// passed the request on; an instance that was not reached must not have asked its validator
+	fail := func(i int, o string) {
+		if o != "" && res.Oracle == "" {
+			res.Oracle = fmt.Sprintf("instance %d of %d on the request's path (%s): %s", i, n, map[int]string{0: "BasicAuth", 1: "KeyAuth"}[layers[i].Mode], o)
+		}
+	}
+	kinds := ""
+	for i, l := range layers {
+		passed := reached[i+1]
+		if i == n-1 {
+			passed = ran
+		}
+		if i == n-1 && ran != reached[n] {
+			fail(i, "the handler and the chain disagree about the last instance")
+		}
+		kinds += map[int]string{0: "B", 1: "K"}[l.Mode]
+		if !reached[i] {
+			if len(bcalls[i])+len(kcalls[i]) > 0 {
+				fail(i, "validator called although an outer instance had ended the request")
+			}
+			continue
+		}
+		if l.Mode == 0 {
+			view := *l
+			view.Auth = nil
+			for _, a := range authValues {
+				view.Auth = append(view.Auth, []byte(a))
+			}
+			o, _, wf := c13BasicOracle(&view, bcalls[i], passed, rec.Code)
+			fail(i, o)
+			if i > 0 && wf && passed {
+				res.Tags = append(res.Tags, "stack:inner-basic-accepted")
+			}
+		} else {
+			fail(i, c13KeyOracle(l, srcsOf[i], locOf[i], kcalls[i], passed, rec.Code))
+			if i > 0 && passed && len(kcalls[i]) > 0 {
+				res.Tags = append(res.Tags, "stack:inner-key-accepted")
+			}
+		}
+		if i > 0 {
+			res.Tags = append(res.Tags, fmt.Sprintf("stack:inner-at-%d", l.At))
+		}
+		if l.skipped() {
+			res.Tags = append(res.Tags, "stack:skipped-instance")
+		}
+	}
+	res.Tags = append(res.Tags, "stack:"+kinds)
+	if ran {
+		res.Tags = append(res.Tags, "stack:ran")
+	}
+	res.Nontrivial = len(bcalls[0])+len(kcalls[0]) > 0
+	return res
+}
+
+// c13GenStack puts 1-2 further instances behind a generated case.  Inner validators mostly accept what the outer one
+// accepts (so that "accepted credentials reach the handler" is exercised for every instance), sometimes something else.
+func c13GenStack(r *rand.Rand) *c13Case {
+	var top *c13Case
+	if r.Intn(2) == 0 {
+		top = c13GenBasic(r)
+	} else {
+		top = c13GenKey(r)
+	}
+	if top.Ctor >= 2 {
+		top.Ctor = 0
+	}
+	// make the outer instance accept more often than a lone one: otherwise the inner ones are rarely reached
+	if r.Intn(3) != 0 {
+		for i := range top.Table {
+			if top.Table[i].Out == 0 && r.Intn(2) == 0 {
+				top.Table[i].Out = 1
+			}
+		}
+	}
+	reroll := func(t []c13Entry) []c13Entry {
+		out := make([]c13Entry, len(t))
+		for i, e := range t {
+			out[i] = e
+			switch r.Intn(6) {
+			case 0:
+				out[i].Out = 0
+			case 1:
+				out[i].Out = c13Pick(r, c13ErrCodes)
+			case 2, 3, 4:
+				out[i].Out = 1
+			}
+		}
+		return out
+	}
+	if top.Mode == 0 && len(top.Auth) == 1 && r.Intn(4) == 0 {
+		// a second Authorization line with other credentials: only instances that read every value may use it
+		ou, op := c13Pick(r, c13Users), c13Pick(r, c13Passes)
+		top.Auth = append(top.Auth, []byte("Basic "+base64.StdEncoding.EncodeToString([]byte(ou+":"+op))))
+	}
+	probe := c13Request(top)
+	authValues := probe.Header.Values("Authorization")
+	inner := func() *c13Case {
+		l := &c13Case{ErrValid: r.Intn(2) == 0, Default: c13Pick(r, []int{0, 0, 1, 403})}
+		l.At = c13Pick(r, []int{0, 1, 1, 2, 2})
+		switch k := r.Intn(6); {
+		case top.Mode == 0 && k <= 2, top.Mode == 1 && k == 0:
+			// BasicAuth (again): its table starts from the outer one's
+			l.Mode = 0
+			if top.Mode == 0 {
+				l.Table = reroll(top.Table)
+			}
+			for _, a := range authValues {
+				if len(a) > 6 {
+					if dec, err := base64.StdEncoding.DecodeString(a[6:]); err == nil {
+						if u, p, ok := strings.Cut(string(dec), ":"); ok {
+							l.Table = append(l.Table, c13Entry{U: []byte(u), P: []byte(p), Out: c13Pick(r, []int{1, 1, 1, 0})})
+						}
+					}
+				}
+			}
+			l.Realm = c13Pick(r, []string{"", "inner"})
+			if r.Intn(5) == 0 {
+				l.Ctor = 1
+			}
+		case top.Mode == 0:
+			// KeyAuth on the same header: the scheme text cut off, the base64 text is the key
+			l.Mode = 1
+			l.Lookup = c13Pick(r, []string{"header:Authorization:Basic ", "header:Authorization:basic ", "header:Authorization", "header:Authorization:Basic"})
+			l.Scheme = c13Pick(r, []string{"", "Basic"})
+			for _, a := range authValues {
+				for _, cut := range []int{5, 6} {
+					if len(a) > cut {
+						l.Table = append(l.Table, c13Entry{U: []byte(a[cut:]), Out: c13Pick(r, []int{1, 1, 0})})
+					}
+				}
+				l.Table = append(l.Table, c13Entry{U: []byte(a), Out: c13Pick(r, []int{1, 0})})
+			}
+			l.EH = c13Pick(r, []int{0, 0, 1, 403})
+		default:
+			// KeyAuth again: same lookup, the sources in another order, or a part of them
+			l.Mode = 1
+			l.Lookup, l.Scheme = top.Lookup, top.Scheme
+			if parts := strings.Split(top.Lookup, ","); len(parts) > 1 {
+				switch r.Intn(3) {
+				case 0:
+					r.Shuffle(len(parts), func(i, j int) { parts[i], parts[j] = parts[j], parts[i] })
+					l.Lookup = strings.Join(parts, ",")
+				case 1:
+					l.Lookup = parts[r.Intn(len(parts))]
+				}
+			}
+			l.Table = reroll(top.Table)
+			l.EH = c13Pick(r, []int{0, 0, 0, 1, 2, 418})
+			l.Cont = r.Intn(4) == 0
+			if r.Intn(6) == 0 {
+				l.Ctor = 1
+			}
+		}
+		if r.Intn(8) == 0 {
+			l.Skipper = 1
+		}
+		return l
+	}
+	for k := 1 + r.Intn(2); k > 0; k-- {
+		top.Stack = append(top.Stack, inner())
+	}
+	return top
 }
 
 // ---------- exported CreateExtractors ----------
@@ -1595,6 +1997,10 @@ func c13Gen(r *rand.Rand, tier string) []any {
 	for i := 0; i < n/8; i++ {
 		out = append(out, c13GenConc(r))
 	}
+	// several instances on the path of one request
+	for i := 0; i < n/6; i++ {
+		out = append(out, c13GenStack(r))
+	}
 	// the exported CreateExtractors entry point: same requests, the extractors applied directly
 	for i := 0; i < n/10; i++ {
 		c := c13GenKey(r)
@@ -1629,6 +2035,14 @@ func c13Clone(c *c13Case) *c13Case {
 	d.Params = append([]string(nil), c.Params...)
 	d.RawQuery = append([]string(nil), c.RawQuery...)
 	d.RawBody = append([]string(nil), c.RawBody...)
+	if c.Stack != nil {
+		d.Stack = make([]*c13Case, len(c.Stack))
+		for i, l := range c.Stack {
+			x := *l
+			x.Table = append([]c13Entry(nil), l.Table...)
+			d.Stack[i] = &x
+		}
+	}
 	return &d
 }
 
@@ -1638,6 +2052,27 @@ func c13Shrink(ci any) []any {
 		return c13ShrinkConc(c)
 	}
 	var out []any
+	for i, l := range c.Stack {
+		d := c13Clone(c)
+		d.Stack = append(d.Stack[:i], d.Stack[i+1:]...)
+		out = append(out, d)
+		if l.At != 0 {
+			d := c13Clone(c)
+			d.Stack[i].At = 0
+			out = append(out, d)
+		}
+		for k := range l.Table {
+			d := c13Clone(c)
+			d.Stack[i].Table = append(d.Stack[i].Table[:k], d.Stack[i].Table[k+1:]...)
+			out = append(out, d)
+		}
+		if l.Skipper != 0 || l.Ctor != 0 || l.ErrValid || l.EH != 0 || l.Cont || l.Realm != "" {
+			d := c13Clone(c)
+			x := d.Stack[i]
+			x.Skipper, x.Ctor, x.ErrValid, x.EH, x.Cont, x.Realm = 0, 0, false, 0, false, ""
+			out = append(out, d)
+		}
+	}
 	for i := range c.Table {
 		d := c13Clone(c)
 		d.Table = append(d.Table[:i], d.Table[i+1:]...)
@@ -1761,11 +2196,11 @@ func c13Shrink(ci any) []any {
 func init() {
 	register(&Prop{
 		ID:             "C13",
-		Rule:           "sequential cases (compared with the model): half BasicAuth, half KeyAuth; plus 1/8 as many overlapping streams (oracle only): ONE middleware instance, 2-3 requests with multi-value headers / several lookup sources, request i stops inside its k-th validator call (channels, no timing) until request i+1 has been served completely, every request judged on its own by the same oracle. Sequential cases: Basic: Authorization values assembled from scheme (casings, truncated, foreign, with U+017F / U+212A / invalid bytes) + separator (space, none, other) + payload (std base64 of user:password incl. empty parts, colons in the password, non-UTF-8; unpadded, URL alphabet, CR/LF inside, truncated, trailing garbage, foreign character, non-zero trailing bits, raw), 0-3 header lines, validator table keyed by credentials (the intended pair + near misses such as the split at the last colon) with outcomes true/false/error((false|true),err). Key: 1-3 lookup sources (header with scheme prefix / explicit cut prefix / none, query, form, cookie, param), 0-23 values per location with prefix variants; for form / query sources the REST of the body / query string is partly malformed (bad %-escapes, semicolons, duplicate and 3-7 KB fields, a malformed field under the looked-up name) in front of or behind the well-formed key, multipart/form-data bodies with mixed-case media types, extra parameters and odd boundaries, urlencoded media-type spellings, non-form media types, PUT/PATCH/DELETE/GET with a body, body combined with query string, ErrorHandler absent / returns nil / passes / returns HTTPError, ContinueOnIgnoredError. Non-trivial = the validator was called or the base64 text was rejected; distinct = distinct model op lines. Round 4: both middlewares through ...WithConfig or the convenience constructors BasicAuth(fn) / KeyAuth(fn) (rarely with a nil validator: constructor panic), default or custom Skipper (skips the requests carrying a marker header, also inside the overlapping streams), request methods incl. OPTIONS / HEAD / TRACE / PROPFIND; Basic: user / password with CR, LF, blanks, NUL, NBSP, quotes, %20 at their borders, validator table holding every normalised reading (trimmed, lower-cased, unescaped) mostly as acceptable, the WWW-Authenticate challenge compared for default / custom realms; Key: route with 22 path parameters (looked-up name at indices 0, 5, 18-21), the key at popular locations that are NOT configured (query access_token / token / key / api_key, headers X-Api-Key / X-Auth-Token / Proxy-Authorization, cookies, form fields), ErrKeyAuthMissing unwrapped inside the ErrorHandler; plus 1/10 as many cases through the exported CreateExtractors(lookups) (no defaults, empty string, malformed strings), every extractor applied to the request inside a handler",
+		Rule:           "sequential cases (compared with the model): half BasicAuth, half KeyAuth; plus 1/8 as many overlapping streams (oracle only): ONE middleware instance, 2-3 requests with multi-value headers / several lookup sources, request i stops inside its k-th validator call (channels, no timing) until request i+1 has been served completely, every request judged on its own by the same oracle. Sequential cases: Basic: Authorization values assembled from scheme (casings, truncated, foreign, with U+017F / U+212A / invalid bytes) + separator (space, none, other) + payload (std base64 of user:password incl. empty parts, colons in the password, non-UTF-8; unpadded, URL alphabet, CR/LF inside, truncated, trailing garbage, foreign character, non-zero trailing bits, raw), 0-3 header lines, validator table keyed by credentials (the intended pair + near misses such as the split at the last colon) with outcomes true/false/error((false|true),err). Key: 1-3 lookup sources (header with scheme prefix / explicit cut prefix / none, query, form, cookie, param), 0-23 values per location with prefix variants; for form / query sources the REST of the body / query string is partly malformed (bad %-escapes, semicolons, duplicate and 3-7 KB fields, a malformed field under the looked-up name) in front of or behind the well-formed key, multipart/form-data bodies with mixed-case media types, extra parameters and odd boundaries, urlencoded media-type spellings, non-form media types, PUT/PATCH/DELETE/GET with a body, body combined with query string, ErrorHandler absent / returns nil / passes / returns HTTPError, ContinueOnIgnoredError. Non-trivial = the validator was called or the base64 text was rejected; distinct = distinct model op lines. Round 4: both middlewares through ...WithConfig or the convenience constructors BasicAuth(fn) / KeyAuth(fn) (rarely with a nil validator: constructor panic), default or custom Skipper (skips the requests carrying a marker header, also inside the overlapping streams), request methods incl. OPTIONS / HEAD / TRACE / PROPFIND; Basic: user / password with CR, LF, blanks, NUL, NBSP, quotes, %20 at their borders, validator table holding every normalised reading (trimmed, lower-cased, unescaped) mostly as acceptable, the WWW-Authenticate challenge compared for default / custom realms; Key: route with 22 path parameters (looked-up name at indices 0, 5, 18-21), the key at popular locations that are NOT configured (query access_token / token / key / api_key, headers X-Api-Key / X-Auth-Token / Proxy-Authorization, cookies, form fields), ErrKeyAuthMissing unwrapped inside the ErrorHandler; round 5: 1/6 as many cases with 2-3 instances on the path of ONE request (e.Use + group + route level): BasicAuth twice / three times, KeyAuth behind BasicAuth on the same Authorization header (cut-prefix `Basic `), KeyAuth twice with the sources reordered or narrowed, BasicAuth behind KeyAuth, inner validators that mostly accept what the outer one accepts, per-instance Skipper / ErrorHandler / constructor; a pass-through marker behind every instance tells whether it passed the request on, and each instance is judged by the unchanged oracle on the request AS SENT (accepted well-formed credentials must pass THIS instance; its validator calls must be literal; an instance that was not reached must not have been asked); plus 1/10 as many cases through the exported CreateExtractors(lookups) (no defaults, empty string, malformed strings), every extractor applied to the request inside a handler",
 		New:            func() any { return &c13Case{} },
 		Gen:            c13Gen,
 		Run:            c13Run,
 		Shrink:         c13Shrink,
-		Correspondence: "C13.basicAuthMW + wwwValue / C13.keyAuthMW / C13.createExtractors + extract (lean/EchoModel/C13.lean) vs middleware.BasicAuth / BasicAuthWithConfig / KeyAuth / KeyAuthWithConfig / CreateExtractors",
+		Correspondence: "C13.basicAuthMW + wwwValue / C13.keyAuthMW / C13.authStack / C13.createExtractors + extract (lean/EchoModel/C13.lean) vs middleware.BasicAuth / BasicAuthWithConfig / KeyAuth / KeyAuthWithConfig / CreateExtractors",
 	})
 }
